@@ -3,6 +3,7 @@ package c07
 import (
 	"errors"
 	"fmt"
+	"path/filepath"
 	"strconv"
 	"sync"
 	"sync/atomic"
@@ -139,6 +140,15 @@ func TestProp_ContainedAndClassified(t *testing.T) {
 				vlib.ScenarioName, conc, n, conc, conc, conc)
 		}
 		spec := &vlib.RunSpec{Mode: mode, Flags: flags, FileYAML: yaml, FileDir: dir, ScenarioFn: scenario, WaitTimeout: 20 * time.Second}
+		// where the iterations' log lines (the failure and panic reports) go: the run's output (verbose),
+		// a log file, or - when LOG_FILE_PATH cannot be opened - back to the run's output
+		logTo := rapid.SampledFrom([]string{"output", "output", "output", "file", "unopenable-file"}).Draw(rt, "logTo")
+		switch logTo {
+		case "file":
+			spec.LogFilePath = filepath.Join(dir, "scenario.log")
+		case "unopenable-file":
+			spec.LogFilePath = dir // a directory
+		}
 		spec.Opts.Concurrency = conc
 		spec.Opts.MaxDuration = 10 * time.Second
 		spec.Opts.MaxIterations = uint64(n)
@@ -153,7 +163,7 @@ func TestProp_ContainedAndClassified(t *testing.T) {
 			names[i] = behaviours[p].Name
 			nonString = nonString || behaviours[p].NonStringPanic
 		}
-		desc := fmt.Sprintf("%s c=%d N=%d plan=%v flags=%v", mode, conc, n, names, flags)
+		desc := fmt.Sprintf("%s c=%d N=%d plan=%v flags=%v log-to=%s", mode, conc, n, names, flags, logTo)
 
 		var wantPass, wantFail uint64
 		mu.Lock()
@@ -172,7 +182,7 @@ func TestProp_ContainedAndClassified(t *testing.T) {
 		mu.Unlock()
 
 		nontrivial := ftp > 0 && nonString
-		cls := []string{"mode-" + mode}
+		cls := []string{"mode-" + mode, "log-to-" + logTo}
 		if ftp > 0 {
 			cls = append(cls, "fail-then-pass-on-same-handle")
 		}
